@@ -436,6 +436,51 @@ def probe_inputs(ctx, rng):
         check("Universe", b_uni(n), lambda: [("vertices", None, ["append", "clear", "reverse", "pop", "setitem", "insert"])],
               lambda u: names(u.vertices))
 
+    # ... the same constructors fed with a container the LIBRARY handed out (the provenance of a container is not
+    # its type: `Universe(vertices=other.vertices)`, `Vertex(links=v.links, universes=v.universes)`,
+    # `Link(vertices=l.vertices)` - the caller still holds what the accessor returned)
+    def b_uni_from_accessor(n):
+        def build():
+            vs, us, ls = fresh()
+            src = Universe(vertices=vs[:n])
+            VS = src.vertices
+            return Universe(vertices=VS), [("vertices", VS)]
+
+        return build
+
+    def b_vertex_from_accessors(n):
+        def build():
+            vs, us, ls = fresh()
+            for u in us[:n]:
+                vs[1].add_to_universe(u)
+            L, U = vs[1].links, vs[1].universes
+            if not isinstance(U, list):
+                U = list(U)  # (a frozenset cannot be mutated by the caller anyway)
+            v = Vertex(links=L, universes=U)
+            return (v, us), [("links", L), ("universes", U)]
+
+        return build
+
+    def b_link_from_accessor(n):
+        def build():
+            vs, us, ls = fresh()
+            VS = zoo.MultiLink(vertices=([vs[0], vs[1], vs[0]] + vs)[:n]).vertices
+            if not isinstance(VS, list):
+                VS = list(VS)
+            return zoo.MultiLink(vertices=VS), [("vertices", VS)]
+
+        return build
+
+    for n in range(4):
+        check("Universe<-accessor", b_uni_from_accessor(n),
+              lambda: [("vertices", None, ["append", "clear", "reverse", "pop", "setitem", "insert"])], lambda u: names(u.vertices))
+        check("Vertex<-accessor", b_vertex_from_accessors(n),
+              lambda: [("links", None, ["append", "clear", "reverse", "pop", "insert"]),
+                       ("universes", None, ["append", "clear", "pop", "insert"])], r_vertex)
+        check("Link<-accessor", b_link_from_accessor(n + 1),
+              lambda: [("vertices", None, ["append", "clear", "reverse", "pop", "setitem", "insert"])], lambda l: names(l.vertices))
+        ctx.count("input_probes_fed_with_accessor_results", 3)
+
     # Link(vertices=)
     def b_link(n):
         def build():
